@@ -160,6 +160,10 @@ def run(prop, seed, budget, ctx):
             if ALIASING: why.append("replace-shares-or-changes-the-set-of-the-original"); c["aliasing"] = list(ALIASING)
         if why: c["kind"] = "P"; c["why"] = why; failures.append(c); hist["P:" + why[0][:40]] += 1
         elif not k_ok: c["kind"] = "K"; c["why"] = "model and implementation disagree"; failures.append(c); kbad += 1
+    import corners7
+    cf_, cn_, cd_, ch_ = corners7.run_part("C15", seed, budget)
+    failures += cf_; distinct |= cd_
+    for f in cf_: hist["P:" + f["why"][0][:40]] += 1
     import objmodel
     of_, on_, od_, oh_ = objmodel.run_part("C15", seed, budget)
     failures += of_; distinct |= od_
